@@ -32,6 +32,7 @@ EXPLANATION = (
     "(f) EXHAUSTION: in the flow elements (lena/flow/iterators.py, lena/flow/elements.py, lena/core/adapters.py, lena/core/split.py) "
     "no next(<iterator>, <constant>) uses a constant default (None, False, 0, '') as the end-of-flow marker: flows may contain these "
     "values.  "
+    "(g) no quiet handler of the iterator elements (except IndexError: return) covers a pull from the incoming flow.  "
     "Does not decide: that the seven branches of the negative-index algorithm select exactly xs[start:stop:step]; the stop "
     "point of fill_into relative to later indices; window contents.")
 LEVEL_NOTE = (
@@ -44,6 +45,8 @@ RULES = {
     "C17-c": "STOP: LenaStopFill only when the index iterator is exhausted; fill iff selected; index advances once",
     "C17-d": "ORIENTATION: deques are used first-in first-out (insertion side opposite to removal side)",
     "C17-f": "EXHAUSTION: the end of a flow is recognised by StopIteration (or a private sentinel object), never by a value the flow may contain",
+    "C17-g": "TRANSPARENT ERRORS: a handler of the iterator elements that ends the flow quietly (except IndexError: return) encloses only "
+             "the element's own container operation, never a pull from the incoming flow",
     "C17-e": "WINDOW: RunningChunkBy's first window and maxlen use the same size; yield-then-append; last window only if full; branches agree",
 }
 IT = "lena.flow.iterators"
@@ -634,7 +637,28 @@ def check_exhaustion(ctx):
     ctx.instances_floor("C17-f", n, 5, "next() calls in the flow elements")
 
 
+def check_transparent_errors(ctx):
+    """Reverse().run(xs) is reversed(list(xs)): when xs raises while it is being collected, so does the reference.  `except
+    IndexError: return` is meant for the element's own empty list; if the try also covers list(flow) an IndexError (or
+    LenaIndexError) of an upstream element ends the flow silently with nothing yielded."""
+    hits = K.swallowed_pulls(ctx.tree, ctx.res, modules=("lena.flow.iterators", "lena.flow.elements"))
+    for mod, fn, tr, h, x in hits:
+        ctx.violation("C17-g", tr, "%s: the handler `except %s` (which does not re-raise) also covers `%s`, a pull from the incoming flow: an "
+                      "error of that kind raised by an upstream element is taken for the element's own end condition and the flow ends "
+                      "quietly -- Reverse().run(xs) no longer behaves as reversed(list(xs)), which raises" % (
+                          A.qualname(fn), A.src(h.type) if h.type is not None else "", A.short(A.enclosing(x, (ast.stmt,)) or x, 50)),
+                      construct="swallowed-pull:%s" % A.qualname(fn))
+    n = 0
+    for m, fn in ctx.tree.functions():
+        if m.name in ("lena.flow.iterators", "lena.flow.elements"):
+            n += sum(1 for t in A.walk_local(fn) if isinstance(t, ast.Try))
+    ctx.instances_floor("C17-g", n, 5, "try statements in the iterator and flow elements")
+    if not hits:
+        ctx.ok("C17-g", ("lena.flow.iterators", "<module>"), "%d try statements: quiet handlers cover no pull from the flow (StopIteration apart)" % n)
+
+
 def check(ctx):
+    check_transparent_errors(ctx)
     check_exhaustion(ctx)
     check_delegation(ctx)
     check_rejection(ctx)
@@ -646,6 +670,8 @@ def check(ctx):
 ITF = "lena/flow/iterators.py"
 ELF = "lena/flow/elements.py"
 VARIANTS = [
+    M("reverse-try-covers-collection", ITF, "        all_huge_flow = list(flow)\n        while 1:\n            try:\n                yield all_huge_flow.pop()\n            except IndexError:\n                return",
+      "        try:\n            all_huge_flow = list(flow)\n            while 1:\n                yield all_huge_flow.pop()\n        except IndexError:\n            return", ["C17-g"]),
     M("stopfill-rewinds", ITF, "            except StopIteration:\n                raise lena.core.LenaStopFill()", "            except StopIteration:\n                self._indices = self._islice(itertools.count(0))\n                self._next_index = -1\n                self._index = 0\n                raise lena.core.LenaStopFill()", ["C17-c"]),
     M("window-kept-in-element", ELF, "        chunk = collections.deque(itertools.islice(flow, chunk_size),\n                                  maxlen=chunk_size)", "        chunk = self._chunk\n        chunk.extend(itertools.islice(flow, chunk_size))", ["C17-e"]),
     M("skip-with-none-sentinel", ITF, "                for _ in zip(range(start), flow):\n                    pass", "                for _ in range(start):\n                    if next(flow, None) is None:\n                        return", ["C17-f"]),
